@@ -118,6 +118,16 @@ var (
 	errorType    = reflect.TypeOf((*error)(nil)).Elem()
 	facErrType   = reflect.TypeOf((func() (Comp, error))(nil))
 	facNoErrType = reflect.TypeOf((func() Comp)(nil))
+	// the same two signatures as DEFINED func types (what a program that names its factory types requests)
+	namedFacErrType   = reflect.TypeOf(CompFactory(nil))
+	namedFacNoErrType = reflect.TypeOf(CompFactoryNoErr(nil))
+)
+
+// CompFactory and CompFactoryNoErr are defined (named) factory types: Registry.LookupFactory accepts them like the
+// unnamed func() (Comp, error) / func() Comp, and a factory requested as one of them has to BE one of them.
+type (
+	CompFactory      func() (Comp, error)
+	CompFactoryNoErr func() Comp
 )
 
 // ---------- shapes ----------
@@ -148,7 +158,49 @@ func (s Shape) String() string {
 	return fmt.Sprintf("%s.%s.%s%s.def-%s.%s", k, s.Conf, b(s.CtorErr, "ctorE", "ctor"), fe, s.Default, s.Result)
 }
 
-var forms = []string{"new", "factory_err", "factory_noerr"}
+// forms are the requested forms: a component, or a factory of the unnamed / defined func type with / without error result.
+var forms = []string{"new", "factory_err", "factory_noerr", "named_factory_err", "named_factory_noerr"}
+
+const unnamedForms = 3 // forms[:unnamedForms] are what the check requested before the defined types were added
+
+func formValid(f string) bool {
+	for _, x := range forms {
+		if x == f {
+			return true
+		}
+	}
+	return false
+}
+
+// formFactoryType: the factory type a form requests (nil for "new"), whether it is a defined type, and the unnamed
+// func type of the same signature.
+func formFactoryType(form string) (t reflect.Type, named bool, unnamed reflect.Type) {
+	switch form {
+	case "factory_err":
+		return facErrType, false, facErrType
+	case "factory_noerr":
+		return facNoErrType, false, facNoErrType
+	case "named_factory_err":
+		return namedFacErrType, true, facErrType
+	case "named_factory_noerr":
+		return namedFacNoErrType, true, facNoErrType
+	}
+	return nil, false, nil
+}
+
+// formViaPanic: the requested factory type has no error result.
+func formViaPanic(form string) bool { return form == "factory_noerr" || form == "named_factory_noerr" }
+
+// What a failing constructor (or registered factory) returns BESIDE its error.
+const (
+	besideNil      = ""         // the zero value of its first result (the usual `return nil, err`)
+	besideValue    = "value"    // a non-nil first result: a partially built component, a wrapper around the failed inner value
+	besideTypedNil = "typednil" // interface-typed results: an interface holding a nil *Impl (`var p *Impl; return p, err`)
+)
+
+var besides = []string{besideNil, besideValue, besideTypedNil}
+
+func besideValid(b string) bool { return b == besideNil || b == besideValue || b == besideTypedNil }
 
 // allShapes enumerates the complete cross product of supported constructor shapes.
 func allShapes() []Shape {
@@ -252,14 +304,16 @@ type fillRec struct {
 }
 
 type ctorRec struct {
-	ptr  *Conf // live config the constructor keeps (its own copy for struct configs)
-	snap Conf  // content at call time
-	err  *injErr
+	ptr    *Conf // live config the constructor keeps (its own copy for struct configs)
+	snap   Conf  // content at call time
+	err    *injErr
+	beside string // what was really returned beside err: besideNil | besideValue | besideTypedNil
 }
 
 type facRec struct {
-	impl *Impl
-	err  *injErr
+	impl   *Impl
+	err    *injErr
+	beside string
 }
 
 // Settings are the user's settings, overlaid on the default config by fillConf.
@@ -308,6 +362,7 @@ type world struct {
 
 	// plan for the invocations of the step being executed
 	failFill, failCtor, failFac bool
+	beside                      string // what a failing constructor / registered factory returns beside its error
 }
 
 func newWorld(s Shape, name string, def Conf) *world {
@@ -367,6 +422,20 @@ func errValue(e *injErr) reflect.Value {
 	return typed(errorType, e)
 }
 
+// besideComponent is the first result of a failing component constructor / registered factory.
+func (w *world) besideComponent(resT reflect.Type, conf *Conf) (reflect.Value, string) {
+	switch w.beside {
+	case besideValue:
+		// not one of w.impls: nobody may ever be handed this as the created component
+		return typed(resT, &Impl{conf: conf, serial: -1, owner: w.name + " (returned beside an error)"}), besideValue
+	case besideTypedNil:
+		if resT.Kind() == reflect.Interface {
+			return typed(resT, (*Impl)(nil)), besideTypedNil
+		}
+	}
+	return reflect.Zero(resT), besideNil
+}
+
 func (w *world) newImpl(conf *Conf) *Impl {
 	p := &Impl{conf: conf, serial: len(w.impls), owner: w.name}
 	w.impls = append(w.impls, p)
@@ -396,17 +465,9 @@ func (w *world) constructor() any {
 		if w.failCtor && s.CtorErr {
 			rec.err = w.newErr("constructor")
 		}
-		var first reflect.Value
-		switch {
-		case s.Kind == "component" && rec.err != nil:
-			first = reflect.Zero(resT)
-		case s.Kind == "component":
-			first = typed(resT, w.newImpl(rec.ptr))
-		case rec.err != nil:
-			first = reflect.Zero(s.productFuncType())
-		default:
-			conf := rec.ptr
-			first = reflect.MakeFunc(s.productFuncType(), func([]reflect.Value) []reflect.Value {
+		// the factory a factory constructor returns
+		productFactory := func(conf *Conf) reflect.Value {
+			return reflect.MakeFunc(s.productFuncType(), func([]reflect.Value) []reflect.Value {
 				fr := &facRec{}
 				w.facs = append(w.facs, fr)
 				if w.failFac && s.FacErr {
@@ -414,7 +475,7 @@ func (w *world) constructor() any {
 				}
 				var prod reflect.Value
 				if fr.err != nil {
-					prod = reflect.Zero(resT)
+					prod, fr.beside = w.besideComponent(resT, conf)
 				} else {
 					// the registered factory gives every product its own copy of the (once decoded) config
 					var own *Conf
@@ -430,6 +491,20 @@ func (w *world) constructor() any {
 				}
 				return []reflect.Value{prod}
 			})
+		}
+		var first reflect.Value
+		switch {
+		case s.Kind == "component" && rec.err != nil:
+			first, rec.beside = w.besideComponent(resT, rec.ptr)
+		case s.Kind == "component":
+			first = typed(resT, w.newImpl(rec.ptr))
+		case rec.err != nil && w.beside == besideValue:
+			// a working factory returned together with the error: calling it counts as a registered-factory call
+			first, rec.beside = productFactory(rec.ptr), besideValue
+		case rec.err != nil:
+			first = reflect.Zero(s.productFuncType()) // (a func has no typed nil)
+		default:
+			first = productFactory(rec.ptr)
 		}
 		if s.CtorErr {
 			return []reflect.Value{first, errValue(rec.err)}
